@@ -195,6 +195,15 @@ class Announcer(object):
                 # guarded by the dirty flag?
                 guarded = any(cfg.kind[g] == 'if' and flag in [unparse(c) for c in conjuncts(cfg.stmt[g].test)]
                               and cfg.dominates(g, b, self.dom) for g in cfg.nodes())
+                if not guarded:
+                    # the same guard written as a guard clause (`if not flag: return`) or through nested / merged tests: the
+                    # condition under which the broadcast statement runs implies the flag
+                    from . import cond
+                    try:
+                        pc = cond.path_condition(f.node, cfg.stmt[b])
+                        guarded = pc is not None and cond.implies(pc, cond.formula(ast.parse(flag, mode='eval').body))
+                    except ValueError:
+                        guarded = False
                 sets = [n for n in cfg.nodes() if cfg.kind[n] == 'stmt' and isinstance(cfg.stmt[n], ast.Assign)
                         and unparse(cfg.stmt[n].targets[0]) == flag and isinstance(cfg.stmt[n].value, ast.Constant)
                         and cfg.stmt[n].value.value is True]
